@@ -8,6 +8,7 @@ import (
 	_ "crypto/sha256"
 	_ "crypto/sha512"
 	"encoding/json"
+	"fmt"
 	"os"
 	"runtime"
 
@@ -89,6 +90,18 @@ func main() {
 				}
 			}
 			if err != nil && mode == "run" {
+				// the store lives on after a failed call: it must answer like a store
+				// that reads the file afresh
+				if fresh, ferr := credentials.NewFileStore(sc.Dir); ferr == nil {
+					for _, addr := range sc.Probe {
+						a, ea := fs.Get(ctx, addr)
+						b, eb := fresh.Get(ctx, addr)
+						if ea == nil && eb == nil && a != b {
+							os.WriteFile(sc.Marker+".disagree", []byte(fmt.Sprintf("Get(%q): the store the failed %s ran on answers {%q %q %q %q}, a store opened on the file {%q %q %q %q}", addr, op.Op, a.Username, a.Password, a.RefreshToken, a.AccessToken, b.Username, b.Password, b.RefreshToken, b.AccessToken)), 0o644)
+							fatal(81)
+						}
+					}
+				}
 				fatal(80)
 			}
 		}
